@@ -216,7 +216,7 @@ func init() {
 	register("INV-2", "memo only on success: no path from a failed producer call reaches `Evaluated = true` carrying its value", 10, ruleINV2)
 	register("INV-3", "memo consulted first: every fact-touching call of the two Evaluate methods is dominated by the not-yet-evaluated edge of the memo test", 4, ruleINV3)
 	register("INV-4", "memo set on success for the documented forms", 8, ruleINV4)
-	register("INV-5", "index construction: both node kinds indexed by snapshot containment, maps re-made", 4, ruleINV5)
+	register("INV-5", "index construction: both node kinds indexed under every variable below them (collected from the children, or by snapshot containment), maps re-made", 4, ruleINV5)
 	register("INV-6", "reset functions are complete", 6, ruleINV6)
 	register("INV-7", "Forget/Changed wiring and DEFUNC binding", 4, ruleINV7)
 	register("INV-8", "who-may-write Evaluated / Retracted / Deleted", 3, ruleINV8)
@@ -973,24 +973,47 @@ func ruleINV5(c *Ctx) {
 		}
 	}
 	outer := loopOf[varSnap]
-	if outer == nil {
+	// Two forms are known. The containment form ranges over the node registries inside a range over the variable registry
+	// and searches the variable's snapshot in the node's; the structural form (D43) ranges over each node registry on its
+	// own and collects the variables below the node from its children (inv5Structural).
+	structural := loopOf[exprSnap] != nil && loopOf[atomSnap] != nil && (outer == nil || (!outer.Contains(loopOf[exprSnap].Header) && !outer.Contains(loopOf[atomSnap].Header)))
+	if outer == nil && !structural {
 		c.Fail("IndexVariables / outer range over variableSnapshotMap", p.Pos(fn.Pos()), "no range over the variable snapshot map")
 		return
 	}
-	// re-made maps: a store of a fresh MakeMap into each index field before the outer loop
+	first := []*Loop{outer}
+	if structural {
+		first = []*Loop{loopOf[exprSnap], loopOf[atomSnap]}
+		if outer != nil {
+			first = append(first, outer)
+		}
+	}
+	// re-made maps: a store of a fresh MakeMap into each index field before the loops
 	for _, f := range []*types.Var{exprVar, atomVar} {
 		remade := false
 		for _, b := range fn.Blocks {
 			for _, in := range b.Instrs {
 				sf, base, val := fieldStore(in)
 				if sf == f && base == ssa.Value(recv) {
-					if _, ok := val.(*ssa.MakeMap); ok && !outer.Contains(b) && b.Dominates(outer.Header) {
-						remade = true
+					if _, ok := val.(*ssa.MakeMap); ok {
+						before := true
+						for _, l := range first {
+							if l.Contains(b) || !b.Dominates(l.Header) {
+								before = false
+							}
+						}
+						if before {
+							remade = true
+						}
 					}
 				}
 			}
 		}
 		c.Check(remade, "IndexVariables / "+f.Name()+" re-made before indexing", p.Pos(fn.Pos()), "fresh map stored before the loops", "the index map "+f.Name()+" is not replaced by a fresh map before indexing: stale entries of an earlier build would survive")
+	}
+	if structural {
+		inv5Structural(c, fn, loops, loopOf, varSnap, [][2]*types.Var{{exprSnap, exprVar}, {atomSnap, atomVar}})
+		return
 	}
 	for _, pr := range []struct {
 		snap, idx *types.Var
